@@ -15,7 +15,7 @@ def section(tag):
     m = re.search(r'\(%s\)(.*?)(?=\n\s*(?:##|\*{0,2}\([a-c]\))|\Z)' % tag, readme, re.S)
     return ' '.join(m.group(1).split())[:900] if m else ''
 meta = {
- "id": mid, "breaks_property": prop, "round": 6,
+ "id": mid, "breaks_property": prop, "round": int(os.environ.get("ROUND","6")),
  "what_breaks": section('a') or readme[:600],
  "needs_to_manifest": section('b'),
  "origin": "written by a fresh sub-agent that was given only the property text and a scratch worktree (nothing from /verif)",
